@@ -175,6 +175,8 @@ def check(ctx):
         for n, cfid, nm in f.calls():
             if nm.startswith('std::make_pair') and len(kids(n)) == 3:
                 ins.append((f, n))
+            elif short(nm) == 'emplace_back' and len(kids(n)) == 3 and '_hashmap' in canon(f, n, inline=False):
+                ins.append((f, n))            # _hashmap[key].emplace_back(move, weight): the pair is built in place
     okb = bool(ins)
     for f, n in ins:
         a = strip_casts(kids(n)[1])
